@@ -397,7 +397,7 @@ pub fn fee3() -> BoxedStrategy<[Uint128; 3]> {
 pub fn vop(w_liq: u32, w_loan: u32, w_misc: u32, depth: u32) -> BoxedStrategy<VOp> {
     prop_oneof![
         2 * w_liq => (0u8..5, vamt()).prop_map(|(user, amt)| VOp::Deposit { user, amt }),
-        2 * w_liq => (0u8..5, any::<u16>()).prop_map(|(user, k)| VOp::Withdraw { user, k }),
+        2 * w_liq => (0u8..5, gen::share_sel()).prop_map(|(user, k)| VOp::Withdraw { user, k }),
         w_liq => (0u8..4, vamt()).prop_map(|(user, amt)| VOp::DepositThenWithdraw { user, amt }),
         4 * w_loan => (loan_amt(), program(depth)).prop_map(|(amt, program)| VOp::Loan { amt, program }),
         w_loan => (0u8..4, loan_amt(), vamt(), proptest::option::weighted(0.25, (loan_amt(), vamt())))
